@@ -5,10 +5,17 @@ generated request *spec* (never against the bytes on the wire):
 
   direct   Requester(**spec).build()  ->  Requestant(msg=bytes).parse()  ->  Server.buildEnviron(requestant)
   loop     http.Client.request(**spec) <- loopback TCP -> http.Server (WSGI app records environ + wsgi.input)
+  seq-*    SEQUENCES of 2-4 specs on ONE kept connection: seq-direct rebuilds one Requester per request (as
+           Client.transmit does) and feeds one Requestant that is re-armed with makeParser() between messages exactly
+           like Server.serviceReps; seq-loop sends them through one http.Client to one http.Server on one keep-alive
+           connection.  Every request is judged against its OWN spec; when a request at position >= 2 fails although
+           the same spec alone (fresh builder, fresh parser) is recovered exactly, the failure is keyed
+           state-leak-across-requests:<field> (headers | query | body | method | path | not-parsed).
 
 Recovered and compared: method; requestant.path and unquote(PATH_INFO); the query
 arguments as any WSGI application decodes them (parse_qsl(QUERY_STRING)); every
-header value (requestant.headers and HTTP_<NAME>); the body bytes (requestant.body,
+header value (requestant.headers and HTTP_<NAME>) and the SET of recovered header names (nothing beyond the spec's
+fields plus Host / Accept-Encoding / Content-Length / Content-Type that the client adds itself); the body bytes (requestant.body,
 wsgi.input, CONTENT_LENGTH); for JSON `data` json.loads(body); for form `fargs`
 parse_qsl(body).  The statement lists form *fields* as an input but only the body
 bytes as recovered, so form fields containing the delimiters '&' '=' (which the
@@ -32,7 +39,9 @@ RULE = ("request specs = method (all 9 of httping.METHODS, any letter case) x un
         "unreserved in 4/5 of the specs, arbitrary unicode incl. & = + % # ; space CR LF in 1/5) x <= 12 headers (token-char "
         "names unique under the WSGI HTTP_ mapping, latin-1 values without edge blanks) x body (none | binary bytes | latin-1 "
         "str | JSON data | form fargs | multipart fargs; none for GET) x explicit Content-Length or not. Non-trivial = the spec "
-        "needs quoting somewhere or carries headers or a body; distinct = by the whole spec.")
+        "needs quoting somewhere or carries headers or a body; distinct = by the whole spec. Plus sequences of 2-4 such specs "
+        "for one reused Requestant / one keep-alive connection, built so that consecutive specs drop header names, the body "
+        "and the query args of their predecessor (rich -> sparse -> ...).")
 ASSUMPTIONS = [
     "paths start with a single '/' and contain no '?', '#' (they delimit the path) and no TAB/CR/LF (urllib.parse.urlsplit removes them by design)",
     "strings contain no lone surrogates; header names are RFC 7230 tokens, values are latin-1 without leading/trailing SP/HTAB and without CR/LF",
